@@ -6,3 +6,4 @@ open Emboss.View
 #print axioms C20_copy_post
 #print axioms C20_copy_overlap
 #print axioms C20_copy_dest_ok_partial
+#print axioms C20_equals_ignores_padding_partial
